@@ -11,6 +11,16 @@ CHECKS = {
    "Every grammar of the bounded classes (quick: G(2,2,2,<=3) u G(1,2,3,<=3); thorough: six classes up to 4 rules / 3 nonterminals / 3 terminals / rhs length 3) plus hand-written families is built by the real code; the automaton must be isomorphic to the reference LR(0) collection (no duplicate, missing, extra or unreachable state, transitions exactly on symbols after a dot, state 0 the start closure). Exhaustive inside the class, small-scope hypothesis beyond it.",
    "Trusted: reference LR(0) construction in harness/ref, the overlay rewriter (map ranges in canonical order; repo tests pass under it), Go toolchain.",
    "3/C09"),
+ "C03": ("exploration",
+   "exhaustive enumeration of bounded grammar classes through the real DeRemer-Pennello computation, every (state, reduction) lookahead set compared with canonical-LR(1)-merged-by-core sets; conflict warnings compared with reference conflict cells; lalr.Digraph on every relation over <=4 nodes against transitive closure",
+   "For every usable grammar of the classes and the separator families, every reduce lookahead set yaccgo attaches must equal the LALR(1) set by definition (LR(1) merge), and the warning lines must name exactly the cells with an unresolved conflict. The Digraph component is explored over all 2^(n*n) relations for n<=3 (quick) / n<=4 (thorough) with three base-set shapes (append-built, shared backing array).",
+   "Trusted: reference LR(1) construction; state matching by item set (C09). Needs hook VerifReduceLookaheads (build tag verif). The warning clause is not judged on grammars with a conflict cell of more than two candidates or a reduce/reduce pair where both rules carry precedence.",
+   "3/C03"),
+ "C12": ("exploration",
+   "exhaustive enumeration of the unfiltered bounded grammar classes (undefined / unproductive / unreachable / ruleless-start cases included) through the real ParseAndBuild, verdict compared with reference definedness and productivity fixpoints",
+   "Refused <=> the reference finds a symbol that is neither token nor defined, or an unproductive nonterminal; refusal must be a diagnostic (not a runtime error) and, for unproductivity, name exactly the unproductive nonterminals; every usable grammar must be processed within the fuel budget.",
+   "Trusted: reference fixpoints. The 2000-state limit is not exercised (no grammar of the classes comes near it).",
+   "3/C12"),
 }
 
 PENDING = {}
